@@ -66,7 +66,7 @@ pub fn specs() -> Vec<PropSpec> {
         spec("C15", crate::gen::c15, "Cluster scenario (world W1) with five authorities, one of them silent and played by the harness (its key signs well-formed messages with absurd content), healthy network and client load. Between 0.4 s and 2.5-4 s, 20-200 hostile inputs hit the consensus, mempool and transaction ports of the four real nodes: empty frames, random bytes, length prefixes above the 8 MiB codec limit, truncated frames followed by a close, bit-flipped / truncated / extended copies of real frames captured from the tap, enum tags out of range, vector lengths of 2^58..2^60, public-key strings that are not base64 or decode to fewer than 32 bytes, sync requests naming a mempool batch key of the shared store, batch requests naming a consensus block key, requests from unknown origins, votes / timeouts of round 2^64-1, a proposal for a round near 2^64 on top of genesis, a TC without votes, 1 MiB transactions. Afterwards every node is probed: it must still commit, answer a sync request and a batch request from its store, and batch a fresh transaction. Both build configurations are run.",
             |r| p(r, "C15.service-probe") > 0 && f(r, "hostile-frame") > 0,
             "hostile inputs were injected and the service probes ran",
-            &["C15.service-probe", "C15.service-ok.b", "C15.service-ok.m", "C15.service-ok.t", "C15.service-ok.c", "hostile.sync-request-for-batch-key", "hostile.batch-request-for-block-key", "hostile.kind12", "hostile.kind34", "hostile.sync-request-boundary-digest"], 120, 600),
+            &["C15.service-probe", "C15.service-ok.b", "C15.service-ok.m", "C15.service-ok.t", "C15.service-ok.c", "hostile.sync-request-for-batch-key", "hostile.batch-request-for-block-key", "hostile.kind12", "hostile.kind34", "hostile.sync-request-boundary-digest"], 180, 600),
         PropSpec {
             id: "C16",
             level: "exploration",
@@ -75,7 +75,7 @@ pub fn specs() -> Vec<PropSpec> {
             nontrivial: |r| p(r, "st.waiters-woken-by-write") > 0 && p(r, "st.read-hit") > 0,
             nontrivial_rule: "at least one notify-read was registered before the write that released it, and at least one read hit a written key",
             required_probes: &["st.waiters-woken-by-write", "st.notify-immediate", "st.read-hit", "st.read-miss", "st.several-waiters-one-key", "st.reopen-value-checked", "st.notify-still-pending"],
-            quick_runs: 1500,
+            quick_runs: 4000,
             thorough_runs: 20_000,
             quick_wall_s: 150.0,
             thorough_wall_s: 1200.0,
@@ -94,7 +94,7 @@ pub fn specs() -> Vec<PropSpec> {
             nontrivial: |r| p(r, "rs.reset") > 0 || f(r, "refuse-scripted") > 0 || p(r, "rs.cancelled") > 0,
             nontrivial_rule: "a connection was actually broken, a connection attempt refused, or a handle dropped",
             required_probes: &["rs.retransmission", "rs.duplicate-delivery", "rs.cancelled", "rs.reset", "rs.resolved"],
-            quick_runs: 3472 + 600,
+            quick_runs: 3472 + 3000,
             thorough_runs: 3472 + 60_000,
             quick_wall_s: 150.0,
             thorough_wall_s: 1200.0,
@@ -107,10 +107,10 @@ pub fn specs() -> Vec<PropSpec> {
         },
         spec("C04", |s, t| crate::gen::puppet("C04", s, t), PUPPET_RULE, |r| p(r, "puppet.invalid-injected") > 0 && p(r, "puppet.vote-as-expected") > 0,
             "at least one invalid variant was injected and the node voted for a valid proposal as the model expected (so rejection and normal operation were both exercised)",
-            &["puppet.invalid-injected", "puppet.vote-as-expected", "puppet.node-proposed", "C19.tc-broadcast"], 400, 8000),
+            &["puppet.invalid-injected", "puppet.vote-as-expected", "puppet.node-proposed", "C19.tc-broadcast"], 1500, 8000),
         spec("C20", |s, t| crate::gen::puppet("C20", s, t), PUPPET_RULE, |r| p(r, "puppet.invalid-injected") > 0 && p(r, "puppet.sync-probe-answered") > 0,
             "a field-altering or signature-transplanting variant was injected and the node's helper answered a sync probe from its store",
-            &["puppet.invalid-injected", "puppet.sync-probe-answered", "puppet.vote-as-expected"], 400, 10000),
+            &["puppet.invalid-injected", "puppet.sync-probe-answered", "puppet.vote-as-expected"], 1500, 10000),
         PropSpec {
             id: "C01",
             level: "exploration",
@@ -119,7 +119,7 @@ pub fn specs() -> Vec<PropSpec> {
             nontrivial: |r| p(r, "commit") > 0 && r.faults.values().sum::<u64>() > 0,
             nontrivial_rule: "at least one block was committed and at least one fault actually fired",
             required_probes: &["commit"],
-            quick_runs: 240,
+            quick_runs: 360,
             thorough_runs: 2400,
             quick_wall_s: 150.0,
             thorough_wall_s: 1200.0,
@@ -128,40 +128,40 @@ pub fn specs() -> Vec<PropSpec> {
         },
         spec("C02", |s, t| crate::gen::chaos("C02", s, t), CLUSTER_RULE, |r| p(r, "C02.commit-across-round-gap") > 0,
             "some node delivered a block whose round is more than one above the previously delivered block (a commit across a view change)",
-            &["commit", "C02.commit-across-round-gap", "C05.ancestor-commit"], 160, 3000),
+            &["commit", "C02.commit-across-round-gap", "C05.ancestor-commit"], 400, 3000),
         spec("C03", |s, t| if s % 3 == 0 { crate::gen::puppet("C03", s, t) } else { crate::gen::chaos("C03", s, t) }, BOTH_RULE, |r| p(r, "C03.vote-on-wire") > 0 && p(r, "C10.timeout-on-wire") > 0,
             "votes and timeouts of honest nodes both appeared on the wire (the vote/timeout interplay was exercised)",
-            &["C03.vote-on-wire", "C10.timeout-on-wire", "C19.qc-emitted"], 160, 1500),
+            &["C03.vote-on-wire", "C10.timeout-on-wire", "C19.qc-emitted"], 400, 1500),
         spec("C05", |s, t| if s % 3 == 0 { crate::gen::puppet("C05", s, t) } else { crate::gen::chaos("C05", s, t) }, BOTH_RULE, |r| p(r, "C05.ancestor-commit") > 0 || p(r, "C02.commit-across-round-gap") > 0,
             "a commit delivered uncommitted ancestors or crossed a round gap (so chains with gaps at either position of the 2-chain occurred)",
-            &["C05.direct-commit", "C05.ancestor-commit"], 160, 2200),
+            &["C05.direct-commit", "C05.ancestor-commit"], 500, 2200),
         spec("C08", |s, t| if s % 3 == 0 { crate::gen::puppet("C08", s, t) } else { crate::gen::chaos("C08", s, t) }, BOTH_RULE, |r| p(r, "C08.vote-nonempty-payload") > 0 && p(r, "C13.batch-request") > 0,
             "a node voted for a block with a non-empty payload and some node had to request a missing batch",
-            &["C08.vote-nonempty-payload", "C08.commit-nonempty-payload", "C13.batch-request"], 160, 1400),
+            &["C08.vote-nonempty-payload", "C08.commit-nonempty-payload", "C13.batch-request"], 300, 1400),
         spec("C09", |s, t| if s % 3 == 0 { crate::gen::puppet("C09", s, t) } else { crate::gen::chaos("C09", s, t) }, BOTH_RULE, |r| p(r, "C09.rotation-window") > 0 && p(r, "C10.timeout-on-wire") > 0,
             "n consecutive voted rounds were observed and at least one timeout occurred",
-            &["C09.proposal", "C09.rotation-window"], 160, 1800),
+            &["C09.proposal", "C09.rotation-window"], 300, 1800),
         spec("C10", |s, t| if s % 3 == 0 { crate::gen::puppet("C10", s, t) } else { crate::gen::chaos("C10", s, t) }, BOTH_RULE, |r| p(r, "C19.tc-broadcast") > 0,
             "a timeout certificate was assembled and broadcast by an honest node (rounds advanced through the timeout path)",
-            &["C10.evidence-checked", "C10.timeout-on-wire", "C19.tc-broadcast"], 160, 5000),
+            &["C10.evidence-checked", "C10.timeout-on-wire", "C19.tc-broadcast"], 500, 5000),
         spec("C19", |s, t| if s % 3 == 0 { crate::gen::puppet("C19", s, t) } else { crate::gen::chaos("C19", s, t) }, BOTH_RULE, |r| p(r, "C19.tc-broadcast") > 0 && p(r, "C19.qc-emitted") > 0,
             "honest nodes emitted both QCs and TCs",
-            &["C19.qc-emitted", "C19.tc-broadcast"], 160, 3000),
+            &["C19.qc-emitted", "C19.tc-broadcast"], 400, 3000),
         spec("C12", crate::gen::c12, C12_RULE, |r| p(r, "C12.own-batch-stored") > 0 && (f(r, "mute-ack") + f(r, "mempool-cut") + f(r, "mempool-delay") + f(r, "reset")) > 0,
             "a node released an own batch and a fault on the acknowledgement path (held replies, cut or slowed mempool link, reset) actually fired",
-            &["C12.own-batch-stored", "C12.ack-seen", "C12.quorum-checked"], 110, 900),
+            &["C12.own-batch-stored", "C12.ack-seen", "C12.quorum-checked"], 160, 900),
         spec("C11", crate::gen::c11, C11_RULE, |r| p(r, "C11.own-batch") >= 2,
             "at least two batches were sealed",
-            &["C11.own-batch", "C11.batch-stored", "tx.delivered"], 200, 1000),
+            &["C11.own-batch", "C11.batch-stored", "tx.delivered"], 300, 1000),
         spec("C13", crate::gen::c13, C13_RULE, |r| p(r, "C13.judged-end-to-end") > 0 && p(r, "tx.delivered") > 0 && p(r, "C13.batch-request") > 0,
             "the run stayed inside the premise (no timeout, no view change) and was judged end to end, transactions were submitted, and some node had to fetch a missing batch",
-            &["tx.delivered", "C13.batch-request", "C13.batch-served-by-helper", "C13.judged-end-to-end"], 120, 900),
+            &["tx.delivered", "C13.batch-request", "C13.batch-served-by-helper", "C13.judged-end-to-end"], 240, 900),
         spec("C06", crate::gen::c06, C06_RULE, |r| f(r, "crash") > 0 && p(r, "C19.tc-broadcast") > 0,
             "an authority crashed and a timeout certificate was formed",
-            &["commit", "C19.tc-broadcast"], 160, 1800),
+            &["commit", "C19.tc-broadcast"], 240, 1800),
         spec("C07", |s, t| if s % 4 == 0 { crate::gen::puppet("C07", s, t) } else { crate::gen::c07(s, t) }, C07_RULE, |r| (p(r, "C07.lagger-was-behind") > 0 && p(r, "C07.sync-request") > 0) || p(r, "puppet.starve-retry-seen") > 0,
             "the reconnected node was behind the others' committed round and sync requests were sent; or (puppet scenarios) the node's retry of an unanswered sync request was observed",
-            &["C07.lagger-was-behind", "C07.sync-reply", "puppet.starve-retry-seen"], 120, 1400),
+            &["C07.lagger-was-behind", "C07.sync-reply", "puppet.starve-retry-seen"], 300, 1400),
     ]
 }
 
